@@ -246,7 +246,20 @@ theorem foldl_nextsSub (f : Cfg → Nat → Cfg) (hf : ∀ g i, NextsSub g (f g 
   | nil => exact NextsSub.refl g
   | cons i rest ih => exact (hf g i).trans (ih (f g i))
 
-theorem deadCode_nextsSub (g : Cfg) : NextsSub g (deadCode g) := foldl_nextsSub deadStep deadStep_nextsSub _ g
+theorem deadSweep_nextsSub (g : Cfg) : NextsSub g (deadSweep g) := foldl_nextsSub deadStep deadStep_nextsSub _ g
+
+theorem deadLoop_nextsSub (fuel : Nat) : ∀ g, NextsSub g (deadLoop fuel g) := by
+  induction fuel with
+  | zero => intro g; exact NextsSub.refl g
+  | succ n ih =>
+    intro g
+    unfold deadLoop
+    simp only []
+    split
+    · exact deadSweep_nextsSub g
+    · exact (deadSweep_nextsSub g).trans (ih _)
+
+theorem deadCode_nextsSub (g : Cfg) : NextsSub g (deadCode g) := deadLoop_nextsSub _ g
 
 theorem ecallStep_nextsSub (g : Cfg) (i : Nat) : NextsSub g (ecallStep g i) := by
   unfold ecallStep
